@@ -244,7 +244,7 @@ class Variant:
         return "(v %s %s (metas %s) (discr %s) (dmetas %s))" % (
             hx(unraw(self.ident)), fs, extra + " ".join(m.sexp() for m in self.metas if m.kind != "raw"),
             "none" if self.discr is None else str(self.discr),
-            " ".join(m.sexp() for m in self.dmetas))
+            " ".join(m.sexp() for m in self.dmetas if m.kind != "raw"))
 
     def has(self, kind) -> bool:
         return any(m.kind == kind for m in self.metas)
@@ -326,7 +326,11 @@ def render_variant_attrs(v: Variant, indent="    ") -> str:
                 o_, c_ = _DELIMS[0] if not _DELIM_CYCLE else _DELIM_CYCLE[len(lines) % len(_DELIM_CYCLE)]
                 lines.append("%s#[strum%s%s%s%s]" % (indent, o_, ", ".join(m.rust() for m in g), "," if _TRAILING else "", c_))
     for m in v.dmetas:
-        lines.append("%s#[strum_discriminants(strum(%s))]" % (indent, m.rust()))
+        if m.kind == "raw":
+            # any attribute may be passed through to the generated variant: a bare word (`default`), `name = value`, a list
+            lines.append("%s#[strum_discriminants(%s)]" % (indent, m.s))
+        else:
+            lines.append("%s#[strum_discriminants(strum(%s))]" % (indent, m.rust()))
     return "\n".join(lines)
 
 
